@@ -114,7 +114,7 @@ def split_chain(value):
             ops.insert(0, make_op(v[2], enc, err))
             v = v[1]
             continue
-        if v[0] == 'call' and v[1] in ('bytes', 'str') and len(v[2]) >= 2:
+        if v[0] == 'call' and v[1] in ('bytes', 'str') and (len(v[2]) >= 2 or (len(v[2]) == 1 and 'encoding' in dict(v[3]))):
             enc, err = _args(v[2][1:], v[3], v[1] + '(x, codec)')
             ops.insert(0, make_op('encode' if v[1] == 'bytes' else 'decode', enc, err))
             v = v[2][0]
